@@ -71,6 +71,8 @@ type UnitOpts struct {
 	// invariants and panic sites are assumed (a partial contract for functions that are
 	// mostly outside the subset: goroutines, channels, closures stored in the heap).
 	AssertsOnly bool
+	// LocksOnly (C20): only guard obligations and clauses labelled locks-* are obligations.
+	LocksOnly bool
 	// Groups: if non-empty, only the labelled clauses (loop invariants, loopinv, ensures, assert@)
 	// whose label is g or starts with g+"-" for some g in Groups are used; unlabelled clauses,
 	// requires and assume@ clauses are always kept. Independent groups of invariants are proved
@@ -223,6 +225,21 @@ func (e *Engine) VerifyFunc(name string, opts UnitOpts) (u *Unit, err error) {
 	}
 	for _, r := range ct.Requires {
 		u.assume(st, ctx.evalBool(r.E))
+	}
+	if e.LockMode {
+		// unless the contract says which locks the caller holds (requires locks-held), it holds none
+		has := false
+		for _, r := range ct.Requires {
+			if r.Label == "locks-held" {
+				has = true
+			}
+		}
+		if !has {
+			w := u.heapGet(st, "F:sync.RWMutex.writerSem", arrSort(SInt, SInt))
+			r := u.heapGet(st, "F:sync.RWMutex.readerSem", arrSort(SInt, SInt))
+			u.emitFact(T{fmt.Sprintf("(forall ((m!q Int)) (! (and (= (select %s m!q) 0) (= (select %s m!q) 0)) :pattern ((select %s m!q)) :pattern ((select %s m!q))))", w.S, r.S, w.S, r.S), SBool})
+			u.note("lock tracking: " + name + " is entered without holding any mutex")
+		}
 	}
 	for _, l := range ct.Lets {
 		f.lets[l.Name] = ctx.eval(l.E)
